@@ -17,16 +17,25 @@
      echo        VGI-Sticky-Echo-Headers                sticky AND echo headers set     the header names, in order
      introspect  VGI-Token-Introspection                when a resolver is configured   "true"
 
-   A case is a configuration vector plus the kind of request the headers are read from; the expected header set
-   is a function of the configuration only (RouteIndependent).  Concrete configured values (integers as decimal
+   A case is a configuration vector together with the sequence of route kinds that can be requested under it (TLC
+   decides applicability); the expected header set is a function of the configuration only (RouteIndependent).
+   The driver issues one real request per listed route kind; responses whose capability headers are identical are
+   judged as one observation that names all the route kinds it stands for.  Concrete configured values (integers as decimal
    strings, echo header names) are chosen by the driver and travel inside the observation (`o.vals`); TLC compares
    them with the header values.                                                                               *)
 EXTENDS Naturals, Sequences, FiniteSets
 
-CONSTANTS Routes,         \* the route kinds probed (a set of strings chosen per tier)
-          Slice           \* "full": all 9216 configurations; "quick": the 1152 with authentication configured (it is
+CONSTANTS Slice           \* "full": all 9216 configurations; "quick": the 1152 with authentication configured (it is
                           \* not a capability, it only makes the 401 route reachable), maxResp = maxExt and
                           \* proof = intro -- every switch still takes every value, every conditional header both ways
+
+\* the route kinds probed: the quick slice probes the first eight
+QuickRoutes == <<"probe", "head_health", "get_health", "unary_ok", "unary_err", "unauth", "unknown_method", "too_large">>
+Routes == IF Slice = "full"
+          THEN QuickRoutes \o <<"options_health", "not_found_page", "bad_ce", "bad_request", "bad_ct", "init", "exchange",
+                                "method_not_allowed", "options_rpc", "landing", "introspect_route", "session_delete",
+                                "upload_url", "exchange_bad">>
+          ELSE QuickRoutes
 
 Bool == {TRUE, FALSE}
 HeaderIds == {"maxreq", "maxresp", "maxext", "extenabled", "encodings", "upload", "maxupload", "proof",
@@ -50,11 +59,11 @@ Applicable(cfg, r) ==
 \* split for TLC's workers: a seed fixes six of the switches, Expand enumerates the rest and the routes
 SeedOf(g) == [g EXCEPT !.maxResp = FALSE, !.maxExt = FALSE, !.maxUpload = FALSE, !.echo = FALSE, !.proof = FALSE,
                         !.intro = FALSE]
-Seeds == {[cfg |-> SeedOf(g), route |-> "seed"] : g \in Configs}
+Seeds == {[cfg |-> SeedOf(g), routes |-> <<>>] : g \in Configs}
+RoutesOf(g) == SelectSeq(Routes, LAMBDA r : Applicable(g, r))
 Variants(g) == {[g EXCEPT !.maxResp = b1, !.maxExt = b2, !.maxUpload = b3, !.echo = b4, !.proof = b5, !.intro = b6] :
                   b1 \in Bool, b2 \in Bool, b3 \in Bool, b4 \in Bool, b5 \in Bool, b6 \in Bool}
-Expand(p) == {[cfg |-> g, route |-> r] : g \in {x \in Variants(p.cfg) : InSlice(x)},
-                                          r \in {x \in Routes : Applicable(p.cfg, x)}}
+Expand(p) == {[cfg |-> g, routes |-> RoutesOf(g)] : g \in {x \in Variants(p.cfg) : InSlice(x)}}
 Cases == UNION {Expand(p) : p \in Seeds}
 
 \* ---------------------------------------------------------------- the table
@@ -92,17 +101,20 @@ Expected(c) == SelectSeq(HeaderOrder, LAMBDA h : Emitted(c.cfg, h))
 
 \* ---------------------------------------------------------------- table sanity (TLC, every case)
 AlwaysTwo(c) == Emitted(c.cfg, "extenabled") /\ Emitted(c.cfg, "encodings")
-RouteIndependent(c) == \A r \in Routes : Expected([c EXCEPT !.route = r]) = Expected(c)
+RouteIndependent(c) == Expected([c EXCEPT !.routes = <<>>]) = Expected(c)
 UploadBytesNeedsProvider(c) == Emitted(c.cfg, "maxupload") => Emitted(c.cfg, "upload")
 StickyFamily(c) == /\ Emitted(c.cfg, "ttl") <=> Emitted(c.cfg, "sticky")
                    /\ Emitted(c.cfg, "echo") => Emitted(c.cfg, "sticky")
 EmittedOnlyFromTable(c) == /\ \A h \in HeaderIds : Emitted(c.cfg, h) \in Bool
                            /\ {HeaderOrder[i] : i \in 1..Len(HeaderOrder)} = HeaderIds
-ApplicableCase(c) == Applicable(c.cfg, c.route)
+ApplicableCase(c) == \A i \in 1..Len(Routes) :
+                        Applicable(c.cfg, Routes[i]) <=> (\E j \in 1..Len(c.routes) : c.routes[j] = Routes[i])
 
 \* ---------------------------------------------------------------- judging what the real code did
 (* observation o =
-     [status, vals, h, unknown, probe]
+     [route, routes, vals, h, unknown, probe]
+     route    the route kind the headers were read from ("probe" = OPTIONS /health through http_capabilities())
+     routes   all route kinds of this case whose responses carried exactly these capability headers
      vals     [maxReq, maxResp, maxExt, maxUpload, ttl : decimal strings; echo : sequence of names] -- the concrete
               configuration the app was built with (meaningful where the switch is on)
      h        [id \in HeaderIds |-> [n |-> number of occurrences, v |-> raw value, l |-> parsed list]]
@@ -133,5 +145,7 @@ Conforms(c, o) ==
                                                THEN {} ELSE {1})}
   \cup {"NoDuplicate"        : x \in {1} \cap (IF \A h \in HeaderIds : o.h[h].n <= 1 THEN {} ELSE {1})}
   \cup {"NoUnknownCapability": x \in {1} \cap (IF o.unknown = <<>> THEN {} ELSE {1})}
-  \cup {"ProbeReadsBack"     : x \in {1} \cap (IF c.route = "probe" => ProbeOk THEN {} ELSE {1})}
+  \cup {"RequestedRoute"     : x \in {1} \cap (IF \A k \in 1..Len(o.routes) : \E j \in 1..Len(c.routes) :
+                                                    c.routes[j] = o.routes[k] THEN {} ELSE {1})}
+  \cup {"ProbeReadsBack"     : x \in {1} \cap (IF o.route = "probe" => ProbeOk THEN {} ELSE {1})}
 =====================================================================================
